@@ -330,7 +330,7 @@ POOL = {
              "saturated uint64[<=2]", "saturated int64[<=2]", "saturated float64[<=2]", "truncated uint13[<=1]", "saturated int5[<=3]",
              "saturated uint16[<=300]", "bool[<=9]"],
     "barr": ["saturated uint8[<=3]", "utf8[<=5]", "saturated uint7[<=4]", "byte[<=2]", "truncated uint8[<=1]", "saturated uint1[<=9]",
-             "utf8[<=1]", "truncated uint5[<=3]"],
+             "utf8[<=1]", "truncated uint5[<=3]", "utf8[<=8]", "utf8[<=2]", "utf8[<=3]"],
     "carr": ["{ns}.In.1.0[2]", "{ns}.In.1.0[<=2]", "{ns}.InU.1.0[<=1]", "{ns}.Ind.1.0[1]", "{ns}.InE.1.0[<=3]"],
 }
 TWIN = {"In": "InX", "Ind": "IndX", "InU": "InUX", "InE": "InEX"}
@@ -462,6 +462,19 @@ def concretize(reg, ns, d, kind, c, salt):
         if form == 4 and is_bytelike(d):
             return memoryview(bytes(vals))
         return vals
+    if c in ("full_s", "long_s"):  # str counted in characters vs. UTF-8 bytes (utf8 fields only: str is a documented input there)
+        if not e.get("utf8") or fixed:
+            return NA
+        wide = ["\u00e9", "\u20ac", "\U0001f600"][salt % 3]  # 2, 3, 4 bytes per character
+        w = len(wide.encode())
+        if c == "full_s":  # byte count within capacity (exact fit when possible), at least one non-ASCII character if it fits
+            nch = cap // w if salt % 2 == 0 else max(cap // w - 1, 0)
+            txt = wide * nch
+            return txt + "a" * ((cap - len(txt.encode())) if salt % 4 < 2 else 0)
+        nch = [cap // w + 1, cap, (cap + w) // w][salt % 3]  # characters <= capacity < bytes
+        nch = max(1, min(nch, cap))
+        txt = wide * nch
+        return txt if len(txt.encode()) > cap else NA
     if c == "long_b":
         n = cap + 1 + (salt % 3 == 2)
         txt = "".join("xyzw"[(i + salt) % 4] for i in range(n))
@@ -512,7 +525,7 @@ def concretize(reg, ns, d, kind, c, salt):
     raise MachineryFailure("unknown abstract candidate %r for kind %r" % (c, kind))
 
 
-VALID_LABELS = {"min", "max", "inf", "nan", "ok", "ok_nd", "empty", "full", "full_nd", "full_b"}
+VALID_LABELS = {"min", "max", "inf", "nan", "ok", "ok_nd", "empty", "full", "full_nd", "full_b", "full_s"}
 
 
 def check_label(reg, d, label, x, v):
@@ -603,8 +616,15 @@ def run_history(reg, ns, comp, kinds, trie, actions, salt):
                 clause = "pyobj.accept"
             else:
                 clause = "pyobj.reject.valueerror"
+            extra = ""
+            if out != "stored" and before is not None and snapshot(comp, o) != before:
+                extra = " AND the object changed"
+                clause = "pyobj.state_kept"  # the graver clause names the finding
+                if comp.union and sum(1 for f in comp.fields if getattr(o, f[0]) is not None) != 1:
+                    extra += " (the union no longer holds exactly one option)"
+                    clause = "pyobj.union_one"
             return Finding("violation", clause, "C18|%s|%s" % (clause, sigtail),
-                           "%s: P allows %s, the generated code %s" % (desc, "/".join(pa), "stored it" if out == "stored" else "raised %s: %s" % (excname, res)),
+                           "%s: P allows %s, the generated code %s%s" % (desc, "/".join(pa), "stored it" if out == "stored" else "raised %s: %s" % (excname, res), extra),
                            i), nsteps, False
         if out not in outs:
             return Finding("drift", "", "%s|%s" % (sigtail, out),
@@ -940,6 +960,17 @@ def rand_cand(rng, reg, comp, d, wrong):
     fixed = k == "farr"
     cap = d["n"] if fixed else d["cap"]
     t = rng.choice(["long", "long", "long2", "short", "long_b", "long_digits", "eover", "ehuge", "ewclass", "two_d", "scalar"])
+    if e.get("utf8") and not fixed and rng.random() < 0.45:  # str: the capacity counts UTF-8 bytes, not characters
+        wide = rng.choice(["\u00e9", "\u00fc", "\u20ac", "\u4e2d", "\U0001f600"])
+        w = len(wide.encode())
+        if rng.random() < 0.5:
+            nch = rng.randint(0, cap // w)
+            txt = wide * nch + "z" * rng.choice([0, cap - nch * w, rng.randint(0, cap - nch * w)])
+            return "".join(rng.sample(txt, len(txt))), "in"
+        nch = rng.randint(cap // w + 1, cap) if cap // w + 1 <= cap else 0
+        txt = wide * nch + "z" * rng.randint(0, max(0, cap - nch))
+        if nch and len(txt) <= cap < len(txt.encode()):
+            return "".join(rng.sample(txt, len(txt))), "long_s"
     if t == "short" and not fixed:
         t = "long"
     if t in ("long", "long2", "short"):
